@@ -280,7 +280,13 @@ func (db *DB) Write(batch *Batch, wo *opt.WriteOptions) error {
 			tr.Discard()
 			return err
 		}
-		return tr.Commit()
+		if err := tr.Commit(); err != nil {
+			// A failed commit leaves the transaction open; discard it so
+			// the write lock and any tables already written are released.
+			tr.Discard()
+			return err
+		}
+		return nil
 	}
 
 	merge := !wo.GetNoWriteMerge() && !db.s.o.GetNoWriteMerge()
